@@ -1,6 +1,6 @@
 SPECIFICATION Spec
 CONSTANTS
-  ItemKinds = {"local", "call", "pcall", "do", "func", "afunc"}
+  ItemKinds = {"pcall", "func", "afunc"}
   MaxTop = 3
   MaxDev = 2
   DevTypes = {"semi", "dir", "tail", "range"}
